@@ -7,7 +7,7 @@ import os
 from . import common
 from .common import Check, Graph, SPECS
 
-INVS = ["Truthful", "NoInjectedAckLeaks", "InjectedIdsFresh", "CompletionExact", "ResendOnlyPending"]
+INVS = ["Truthful", "NoInjectedAckLeaks", "InjectedIdsFresh", "CompletionExact", "ResendOnlyPending", "OldestCoversPending"]
 
 
 def _cfg(consts, invs=True, spec="MSpec", sample=1):
@@ -68,6 +68,12 @@ class Impl:
             seen = self.addon.seen
             if seen is not None:
                 flags = {"finalized": bool(seen.finalized), "dropped": bool(seen.dropped)}
+        elif act["n"] == "Ping":
+            from hippolyzer.lib.base.message.message import Block as _B, Message as _M
+            d = Direction.OUT if act["d"] == "OUT" else Direction.IN
+            m = _M("StartPingCheck", _B("PingID", PingID=3, OldestUnacked=act["oldest"]), packet_id=act["k"], direction=d)
+            self.addon.seen = None
+            exc = env.deliver(m)
         elif act["n"] == "Inject":
             d = Direction.OUT if act["d"] == "OUT" else Direction.IN
             m = Message("CompletePingCheck", Block("PingID", PingID=7), direction=d)
@@ -103,8 +109,9 @@ class Impl:
 def _norm_out(recs, sort):
     res = []
     for r in recs:
-        res.append([r["dir"], r["id"], "pa" if r["name"] in ("pa", "PacketAck") else "msg",
-                    bool(r["rel"]), bool(r["resent"]), list(r["acks"]), list(r["pa"])])
+        name = {"PacketAck": "pa", "StartPingCheck": "spc", "CompletePingCheck": "msg"}.get(r["name"], r["name"])
+        res.append([r["dir"], r["id"], name, bool(r["rel"]), bool(r["resent"]), list(r["acks"]), list(r["pa"]),
+                    r.get("oldest", 0)])
     return sorted(res) if sort else res
 
 
